@@ -52,7 +52,14 @@ def canonical_fields(program, ctx, rid):
     mod = fn._module
     # helper predicates defined in the module: name -> ('hex'|'int')
     helpers = {}
-    for f in mod.tree.body:
+    cands = [(f.name, f) for f in mod.tree.body if isinstance(f, ast.FunctionDef)]
+    # predicates that live in another module of the package and are imported / aliased here
+    for local, tgt in program.imports_of(mod).items():
+        m2, _, sym = tgt.rpartition(".")
+        f2 = program.functions.get(f"{m2}:{sym}")
+        if f2 is not None and isinstance(f2, ast.FunctionDef) and all(local != n_ for n_, _f in cands):
+            cands.append((local, f2))
+    for fname, f in cands:
         if isinstance(f, ast.FunctionDef) and f.args.args:
             p0 = f.args.args[0].arg
             txt = ast.unparse(f)
@@ -76,7 +83,7 @@ def canonical_fields(program, ctx, rid):
             # no early `return True`: every truthy-constant return must be the last statement
             early_true = [r for r in rets if isinstance(r.value, ast.Constant) and r.value.value is True and r is not f.body[-1]]
             if hexy and rets and "isinstance" in txt and all(r.value is not None for r in rets) and not early_true:
-                helpers[f.name] = "hex"
+                helpers[fname] = "hex"
     proven = {}
 
     def field_of(e):
@@ -523,7 +530,9 @@ def rule_encoder(program, ctx, prop=P, rid="C04.encoder"):
         "default/skipkeys/number modes substitute values) make the served event differ from the accepted one - its id no longer matches",
         floor=1,
     )
-    m = program.module("nostr_relay.util")
+    from ..lib import defining_module
+
+    m = defining_module(program, "nostr_relay.util", "json_dumps")
     allowed = {"ensure_ascii", "separators", "indent", "write_mode", "check_circular", "allow_nan"}
     n = 0
     for c in ast.walk(m.tree):
